@@ -76,9 +76,12 @@ func scenarioC08Random(c *Ctx, r *Rng, idx int) {
 	// K subscopes (+ the root itself), one counter each, created before anything is scheduled
 	k := r.Range(1, 3)
 	ctrs := []c08ctr{{"rc", w.root.Counter("rc")}}
+	var oldSubs []tally.Scope // subscope handles obtained before Close: derivations from them afterwards must be inert
 	for i := 0; i < k; i++ {
 		n := fmt.Sprintf("s%d", i)
-		ctrs = append(ctrs, c08ctr{n + ".c", w.root.SubScope(n).Counter("c")})
+		sub := w.root.SubScope(n)
+		oldSubs = append(oldSubs, sub)
+		ctrs = append(ctrs, c08ctr{n + ".c", sub.Counter("c")})
 	}
 	pre := map[string]int64{}  // recorded before Close was called: must be delivered by the time it returns
 	post := map[string]int64{} // recorded after Close was called: delivered at most once
@@ -344,6 +347,17 @@ func scenarioC08Random(c *Ctx, r *Rng, idx int) {
 	}
 	if sc := w.root.SubScope("late"); sc != tally.NoopScope {
 		fail("scopes-after-close-inert", "SubScope after Close returned a live scope")
+	}
+	for i, sub := range oldSubs {
+		sub := sub
+		if pan, val := catch(func() {
+			if sub.SubScope("late") != tally.NoopScope || sub.Tagged(map[string]string{"late": "1"}) != tally.NoopScope {
+				fail("scopes-after-close-inert", fmt.Sprintf("a scope derived after Close from subscope handle s%d (obtained before Close) is live", i))
+			}
+		}); pan {
+			c.Cov.Fail(Failure{Kind: "crash", Clause: "old-handles-harmless-after-close", Signature: sig + "-old-handle-panics", Line: line(), Reply: fmt.Sprintf("using subscope handle s%d after the root's Close panicked: %v", i, val)})
+			return
+		}
 	}
 	for _, ct := range ctrs {
 		ct.h.Inc(1)
